@@ -1,5 +1,6 @@
 import NbioVerif.Lemmas.WsRoundTrip
 import NbioVerif.Lemmas.WsMaskProof
+import NbioVerif.Lemmas.WsTrunc
 /-! C12 — WebSocket message round trip: framing, masking, fragmentation, compression.
 
     Sender: `Ws.writeMessage` (WriteMessage / writeFrame) on an endpoint with configuration `gs` and environment `es`
@@ -54,6 +55,14 @@ theorem c12_frame (gr : Cfg) (isClient : Bool) (key : Bytes) (hk : key.length = 
     nextFrame gr s = .frame (encodeFrame isClient key opcode so fin data rsv1).length
       (infoOf isClient opcode so fin data rsv1).opcode data fin rsv1 :=
   nextFrame_encodeFrame gr isClient key hk s opcode so fin data rsv1 tail hcache hop hlen hsz hv
+
+/-- C12 (truncWriter): however `flate.Writer` chunks its output into `Write` calls, `truncWriter` passes on the stream
+    without its last four bytes (the `00 00 ff ff` of the sync flush that permessage-deflate omits and the reader's
+    `flateReaderTail` puts back): passed on ++ held back = stream, |held back| = min 4 |stream| -/
+theorem c12_truncWriter (cs : List Bytes) :
+    (twWrites [] cs).1 ++ (twWrites [] cs).2 = cs.flatten ∧ (twWrites [] cs).2.length = min 4 cs.flatten.length := by
+  have := twWrites_spec cs [] (by simp)
+  simpa using this
 
 /-- C12 (segmentation): any segmentation of any input gives the same callbacks, replies, error and final state as one
     Parse call on the whole input -/
